@@ -7,7 +7,8 @@ namespace SessionCtl
 set_option maxHeartbeats 2000000 in
 theorem pinv_hsTail (cfg : Cfg) (lr : LoadRes) (s : St) (d : Doc) (h : pinv cfg s d = true)
     (hb : d.built = true) (hdn : d.done = false)
-    (hp : cfg.golang = false → s.locked = true) (hgo : cfg.golang = true → s.tracker = .never) :
+    (hp : cfg.golang = false → s.locked = true) (hgo : cfg.golang = true → s.tracker = .never)
+    (hbf : (s.state != .pskAllSet || s.binderFresh) = true) :
     (hsTail cfg lr s).2 = none ∧ pinv cfg (hsTail cfg lr s).1 { d with done := true } = true := by
   have ht := hsTail_inv cfg lr s (pinv_inv h) hp hgo
   refine ⟨ht.2.1, ?_⟩
@@ -19,7 +20,7 @@ theorem pinv_hsTail (cfg : Cfg) (lr : LoadRes) (s : St) (d : Doc) (h : pinv cfg 
   have hgl := inv_golang_unlocked (pinv_inv h)
   simp only [pinv, ht.1, Bool.true_and]
   clear ht h
-  obtain ⟨hasCache, state, locked, tracker, calling, status, tRef, pRef, specT, userT, specP, userP, lT, lP, hsS, hsE, hT, hP, raw, ts, shares, filled, held, done⟩ := s
+  obtain ⟨hasCache, state, locked, tracker, calling, status, tRef, pRef, specT, userT, specP, userP, lT, lP, hsS, hsE, hT, hP, raw, ts, shares, filled, held, done, bfresh⟩ := s
   obtain ⟨cache, built, ddone, injT, injP, fresh⟩ := d
   obtain ⟨golang, custom, cT, cP, skip, disabled⟩ := cfg
   simp only at hb hdn; subst hb; subst hdn
